@@ -10,6 +10,7 @@ int g_s;      /* witness member of QXmppStanzaPrivate */
 #define TOUCHED_W(f) gh_wr_QXmppMessagePrivate[f]
 #define TOUCHED_RS(f) gh_rd_QXmppStanzaPrivate[f]
 #define TOUCHED_WS(f) gh_wr_QXmppStanzaPrivate[f]
+#define WITNESS_IN_RANGE (0 <= g_f && g_f < QXMPPMESSAGEPRIVATE_NFIELDS && 0 <= g_s && g_s < QXMPPSTANZAPRIVATE_NFIELDS)
 /* the witnesses are in range and untouched before the call (all other members: arbitrary history) */
 #define WITNESS_MEMBER_OK (0 <= g_f && g_f < QXMPPMESSAGEPRIVATE_NFIELDS && !TOUCHED_R(g_f) && !TOUCHED_W(g_f) && \
                            0 <= g_s && g_s < QXMPPSTANZAPRIVATE_NFIELDS && !TOUCHED_RS(g_s) && !TOUCHED_WS(g_s))
